@@ -9,14 +9,18 @@ Open Scope N_scope.
 Definition DBG_TRACE := 7.
 Definition DBG_FSYSTEM := 3.
 Definition DBG_BSD := 4.
+Definition DBG_PERF := 37.
 
 Definition has_filters (cfg : fcfg) : bool := nonempty (c_class cfg) || nonempty (c_sub cfg).
 Definition add_trace_class (cfg : fcfg) : bool := has_filters cfg && negb (memN DBG_TRACE (c_class cfg)).
 Definition has_bsd (cfg : fcfg) : bool :=
   memN DBG_BSD (c_class cfg) || existsb (fun sc => N.eqb (N.shiftr sc 8) DBG_BSD) (c_sub cfg).
 Definition add_fs_class (cfg : fcfg) : bool := has_filters cfg && has_bsd cfg && negb (memN DBG_FSYSTEM (c_class cfg)).
+(* sampler thread-data records declare the process of a thread (like the new-thread / exec records of the trace class) *)
+Definition add_perf_class (cfg : fcfg) : bool := has_filters cfg && negb (memN DBG_PERF (c_class cfg)).
 Definition helper_classes (cfg : fcfg) : list N :=
-  (if add_trace_class cfg then [DBG_TRACE] else []) ++ (if add_fs_class cfg then [DBG_FSYSTEM] else []).
+  (if add_trace_class cfg then [DBG_TRACE] else []) ++ (if add_fs_class cfg then [DBG_FSYSTEM] else [])
+  ++ (if add_perf_class cfg then [DBG_PERF] else []).
 
 Definition cls (code : N) : N := N.shiftr code 24.
 
@@ -26,7 +30,8 @@ Definition fed (cfg : fcfg) (code : N) : bool :=
 (* the post-filters on the head event id of a trace *)
 Definition post_keep (cfg : fcfg) (code : N) : bool :=
   (negb (add_trace_class cfg) || negb (N.eqb (cls code) DBG_TRACE) || allowed cfg code)
-  && (negb (add_fs_class cfg) || negb (N.eqb (cls code) DBG_FSYSTEM) || allowed cfg code).
+  && (negb (add_fs_class cfg) || negb (N.eqb (cls code) DBG_FSYSTEM) || allowed cfg code)
+  && (negb (add_perf_class cfg) || negb (N.eqb (cls code) DBG_PERF) || allowed cfg code).
 (* what the caller asked for *)
 Definition requested (cfg : fcfg) (code : N) : bool := negb (has_filters cfg) || allowed cfg code.
 
@@ -40,10 +45,11 @@ Proof.
   destruct (has_filters cfg) eqn:HF; cbn [negb orb].
   - destruct (allowed cfg code) eqn:A; rewrite ?orb_true_r; cbn [orb andb]; auto.
     rewrite !orb_false_r.
-    destruct (add_trace_class cfg) eqn:T, (add_fs_class cfg) eqn:F; cbn [negb orb app];
+    destruct (add_trace_class cfg) eqn:T, (add_fs_class cfg) eqn:F, (add_perf_class cfg) eqn:Q; cbn [negb orb app];
       unfold memN; cbn [existsb]; rewrite ?orb_false_r;
-      destruct (N.eqb (cls code) DBG_TRACE) eqn:E7, (N.eqb (cls code) DBG_FSYSTEM) eqn:E3; cbn; auto.
-  - unfold add_trace_class, add_fs_class. rewrite HF. reflexivity.
+      destruct (N.eqb (cls code) DBG_TRACE) eqn:E7, (N.eqb (cls code) DBG_FSYSTEM) eqn:E3,
+               (N.eqb (cls code) DBG_PERF) eqn:E37; cbn; auto.
+  - unfold add_trace_class, add_fs_class, add_perf_class. rewrite HF. reflexivity.
 Qed.
 
 Section T.
